@@ -261,8 +261,8 @@ namespace xsv
         auto j_signnz = XSV_J { using T = XSV_T; if (std::isnan(a[0]) || a[0] == 0) return J_SKIP; cls |= fp_cls(a[0]) | (std::signbit(a[0]) ? CL_NEG : 0); exp = std::signbit(a[0]) ? (T)-1 : (T)1; return fin_bits<T>(got, exp, cls); };
         def_fp("sign", "C02", 1, j_sign);
         def_fp("signnz", "C02", 1, j_signnz);
-        // frexp (finite inputs), ldexp (2^e normal), nextafter
-        auto j_frexp_m = XSV_J { using T = XSV_T; if (!std::isfinite(a[0])) return J_SKIP; int e; exp = std::frexp(a[0], &e); cls |= fp_cls(a[0]) | CL_BOUNDARY; return fin_bits<T>(got, exp, cls); };
+        // frexp (mantissa for every input, exponent for finite inputs), ldexp, nextafter
+        auto j_frexp_m = XSV_J { using T = XSV_T; int e; exp = std::frexp(a[0], &e); /* infinities and NaN come back unchanged (C: frexp(+-inf) = +-inf, frexp(NaN) = NaN); only their exponent is unspecified */ if (std::isnan(a[0])) { cls |= fp_cls(a[0]); return std::isnan(got) ? J_OK : J_FAIL; } cls |= fp_cls(a[0]) | CL_BOUNDARY; return fin_bits<T>(got, exp, cls); };
         auto j_frexp_e = [](auto* a, int64_t, auto got, auto& exp, unsigned& cls) -> int { if (!std::isfinite(a[0])) return J_SKIP; int e; (void)std::frexp(a[0], &e); exp = e; cls |= fp_cls(a[0]) | CL_BOUNDARY; return got == exp ? J_OK : J_FAIL; };
         def_fp("frexp_m", "C02", 1, j_frexp_m);
         def_fp_toint("frexp_e", "C02", 1, j_frexp_e);
@@ -275,11 +275,11 @@ namespace xsv
                 memcpy(&x, in[0], 4);
                 memcpy(&e, in[1], 4);
                 memcpy(&g, got, 4);
-                if (e < fpt<float>::emin || e > fpt<float>::emax)
-                    return J_SKIP;
-                float r = std::ldexp(x, e);
+                // every exponent is judged: x * 2^e correctly rounded once (beyond +-100000 the result is saturated already)
+                const bool inr = !(e < fpt<float>::emin || e > fpt<float>::emax);
+                float r = std::ldexp(x, std::max<int32_t>(-100000, std::min<int32_t>(100000, e)));
                 memcpy(exp, &r, 4);
-                *cls |= fp_cls(x) | fp_cls(r) | ((e == fpt<float>::emin || e == fpt<float>::emax) ? CL_EXTREME : 0) | (std::ldexp(r, -e) != x ? CL_INEXACT : 0);
+                *cls |= fp_cls(x) | fp_cls(r) | ((e == fpt<float>::emin || e == fpt<float>::emax || !inr) ? CL_EXTREME : 0) | (inr && std::ldexp(r, -e) != x ? CL_INEXACT : 0);
                 return same(g, r) ? J_OK : J_FAIL;
             };
             d.judge[F64] = [](const void* const* in, int64_t, const void* got, void* exp, unsigned* cls, std::string*) -> int {
@@ -288,11 +288,10 @@ namespace xsv
                 memcpy(&x, in[0], 8);
                 memcpy(&e, in[1], 8);
                 memcpy(&g, got, 8);
-                if (e < fpt<double>::emin || e > fpt<double>::emax)
-                    return J_SKIP;
-                double r = std::ldexp(x, (int)e);
+                const bool inr = !(e < fpt<double>::emin || e > fpt<double>::emax);
+                double r = std::ldexp(x, (int)std::max<int64_t>(-100000, std::min<int64_t>(100000, e)));
                 memcpy(exp, &r, 8);
-                *cls |= fp_cls(x) | fp_cls(r) | ((e == fpt<double>::emin || e == fpt<double>::emax) ? CL_EXTREME : 0) | (std::ldexp(r, -(int)e) != x ? CL_INEXACT : 0);
+                *cls |= fp_cls(x) | fp_cls(r) | ((e == fpt<double>::emin || e == fpt<double>::emax || !inr) ? CL_EXTREME : 0) | (inr && std::ldexp(r, -(int)e) != x ? CL_INEXACT : 0);
                 return same(g, r) ? J_OK : J_FAIL;
             };
         }
